@@ -200,7 +200,7 @@ func (c *Ctx) INT1(rule string) []report.Obligation {
 			}
 			nCast++
 			for _, r := range returnsOf(g) {
-				if !isNilOrConst(retValue(r, 1)) {
+				if !isNilOrConst(errRet(r)) {
 					continue
 				}
 				onOK := factHolds(r.Block(), func(cond ssa.Value, val bool) bool { return cond == found && val })
@@ -224,7 +224,7 @@ func (c *Ctx) INT1(rule string) []report.Obligation {
 	def := false
 	for _, r := range returnsOf(f) {
 		for _, pa := range f.Params {
-			if types.IsInterface(pa.Type()) && retValue(r, 0) == ssa.Value(pa) && isNilOrConst(retValue(r, 1)) {
+			if types.IsInterface(pa.Type()) && retValue(r, 0) == ssa.Value(pa) && isNilOrConst(errRet(r)) {
 				def = true
 			}
 		}
@@ -248,7 +248,7 @@ func (c *Ctx) ERRRET(rule string) []report.Obligation {
 			}
 		}
 		for _, r := range returnsOf(f) {
-			errv := retValue(r, 2)
+			errv := errRet(r)
 			quoted := factHolds(r.Block(), func(cond ssa.Value, val bool) bool {
 				ex, ok := cond.(*ssa.Extract)
 				return ok && ex.Index == 1 && !val && isCallToName(ex.Tuple, "hasQuotePrefix")
@@ -314,7 +314,7 @@ func (c *Ctx) ERRRET(rule string) []report.Obligation {
 	if f := c.P.Func("dotenv.(*parser).locateKeyName"); f != nil {
 		good := false
 		for _, r := range returnsOf(f) {
-			if !c.dyn.definitelyNonNil(retValue(r, 3), r.Block(), 2) {
+			if !c.dyn.definitelyNonNil(errRet(r), r.Block(), 2) {
 				continue
 			}
 			// on the path where the rune is neither letter nor number
@@ -1556,7 +1556,7 @@ func (c *Ctx) URLCTX(rule string) []report.Obligation {
 		}
 		good := false
 		for _, r := range returnsOf(fn) {
-			if !isNilOrConst(retValue(r, 1)) {
+			if !isNilOrConst(errRet(r)) {
 				continue
 			}
 			if _, isMI := retValue(r, 0).(*ssa.MakeInterface); !isMI {
